@@ -4,7 +4,7 @@
 # Then runs the property's check on /repo with the patch applied (and undoes it), and stores everything in /verif/seeded/.
 set -u
 P=$1; V=$2; DIR=$3
-SRC=/tmp/seed-$P/$V
+SRC=${SEED_SRC:-/tmp/seed-$P}/$V
 WT=/tmp/vs-$P-$V
 OUT=/verif/seeded/$P-$V
 unset GOFLAGS GOWORK
